@@ -11,7 +11,7 @@ RULE = ("quick: exhaustive over cycles of 1..3 elements x durations 1..3 x 3 col
         "TrafficLight/cycle agreement")
 ANCHORS = ["TrafficLightCycle.get_state_at_time_step", "TrafficLight.get_state_at_time_step",
            "TrafficLightCycle.cycle_init_timesteps"]
-REQUIRED = ["single-element", "t<offset", "t-many-periods", "adjacent-same-colour", "light-agrees", "retimed.swap-durations", "retimed.shift-duration",
+REQUIRED = ["cycle.constructed-empty-then-filled-in-place", "single-element", "t<offset", "t-many-periods", "adjacent-same-colour", "light-agrees", "retimed.swap-durations", "retimed.shift-duration",
             "retimed.reverse-in-place", "retimed.time_offset", "retimed.append", "retimed.replace-cycle-of-light", "light.lamps-RYG",
             "light.first-colour-only", "light.inactive-flag", "numpy-int-time.uint8", "numpy-int-time.uint64",
             "numpy-int-time.int8", "numpy-int-definition.unsigned", "numpy-int-definition.signed",
@@ -49,6 +49,7 @@ def run(ctx):
     ts = list(range(-10, 41))
 
     light_variant = [0]
+    fill_variant = [0]
 
     def check_case(sd, off, tlist, tag, K=int):
         """K: integer kind in which durations and offset are handed to the constructors (int or a numpy fixed-width kind)"""
@@ -59,6 +60,15 @@ def run(ctx):
             ctx.feature("adjacent-same-colour")
         total = sum(d for _, d in sd)
         mk = lambda: TrafficLightCycle([TrafficLightCycleElement(s, K(d)) for s, d in sd], time_offset=K(off))  # noqa
+        fill_variant[0] += 1
+        if fill_variant[0] % 4 == 3:
+            # the other way of defining a cycle: constructed without elements, the phases appended to its list afterwards
+            def mk():
+                c_ = TrafficLightCycle(time_offset=K(off)) if off else TrafficLightCycle()
+                for s, d in sd:
+                    c_.cycle_elements.append(TrafficLightCycleElement(s, K(d)))
+                return c_
+            ctx.feature("cycle.constructed-empty-then-filled-in-place")
         cyc = mk()
         # the light's own optional arguments (lamp colours, active flag, direction) do not enter the statement:
         # whatever they are, the light agrees with its cycle
